@@ -46,9 +46,10 @@ type runResult struct {
 	Trace      []string         `json:"trace"`
 	Tape       []uint64         `json:"tape"`
 	// summary line
-	Runs  int      `json:"runs"`
-	Pairs []uint32 `json:"pairs"`
-	Sites []int    `json:"sites"`
+	Aborted bool     `json:"aborted"`
+	Runs    int      `json:"runs"`
+	Pairs   []uint32 `json:"pairs"`
+	Sites   []int    `json:"sites"`
 }
 
 type finding struct {
@@ -428,6 +429,7 @@ func runWorker(a *agg, from uint64, count int, timeout time.Duration) error {
 	sc := bufio.NewScanner(stdout)
 	sc.Buffer(make([]byte, 1<<20), 1<<28)
 	got := 0
+	aborted := false
 	var lastSeed uint64
 	for sc.Scan() {
 		var r runResult
@@ -437,6 +439,8 @@ func runWorker(a *agg, from uint64, count int, timeout time.Duration) error {
 		if !r.Summary {
 			got++
 			lastSeed = r.Seed
+		} else if r.Aborted {
+			aborted = true
 		}
 		a.addRun(&r)
 	}
@@ -451,7 +455,7 @@ func runWorker(a *agg, from uint64, count int, timeout time.Duration) error {
 		a.batchRaces = append(a.batchRaces, rc)
 	}
 	a.mu.Unlock()
-	if werr != nil || got != count {
+	if werr != nil || (got != count && !aborted) {
 		return fmt.Errorf("worker for seeds %d..%d failed (%v, %d/%d runs); stderr tail: %s", from, from+uint64(count)-1, werr, got, count, tail(stderr.String(), 1500))
 	}
 	return nil
